@@ -89,6 +89,10 @@ var specs = []spec{
 	{Pkg: "internal/loadbalancer", Recv: "WebSocketPool", Name: "Put", LeanName: "poolPut"},
 	{Pkg: "internal/loadbalancer", Recv: "WebSocketPool", Name: "Close", LeanName: "poolClose"},
 	{Pkg: "internal/loadbalancer", Recv: "WebSocketPool", Name: "cleanupBackend", LeanName: "poolCleanupBackend"},
+	{Pkg: "internal/loadbalancer", Recv: "", Name: "createHealthChecker"},
+	{Pkg: "internal/loadbalancer", Recv: "LoadBalancer", Name: "setupWebSocketPool", Join: true},
+	{Pkg: "internal/loadbalancer", Recv: "LoadBalancer", Name: "setupRateLimiter", Join: true},
+	{Pkg: "internal/loadbalancer", Recv: "LoadBalancer", Name: "setupCircuitBreaker", Join: true},
 	{Pkg: "internal/config", Recv: "Config", Name: "validateBackends"},
 	{Pkg: "internal/config", Recv: "Config", Name: "validateServer"},
 	{Pkg: "internal/config", Recv: "Config", Name: "validateTimeouts"},
@@ -283,6 +287,9 @@ func leanType(t types.Type, exact bool) (string, bool) {
 		if _, ok := v.Underlying().(*types.Signature); ok {
 			return "Bool", true
 		}
+		if _, ok := v.Underlying().(*types.Interface); ok && v.Obj().Pkg() != nil && strings.HasPrefix(v.Obj().Pkg().Path(), modPath) {
+			return "Bool", true // a component behind an interface of this module: is it there
+		}
 		return "", false
 	case *types.Signature:
 		return "Bool", true // is the function value non-nil
@@ -357,6 +364,7 @@ type fn struct {
 }
 
 var structsWithFx = map[string]bool{}
+var structsWithBuilt = map[string]bool{} // objects that construct components: the constructor calls with their numbers, in order
 var structsWithClosed = map[string]bool{} // objects through which connections are closed
 var structsWithOut = map[string]bool{}     // wrappers of a ResponseWriter: calls handed on, in order
 var structsWithFlusher = map[string]bool{} // ... whose code asks whether the wrapped writer can flush
@@ -590,6 +598,38 @@ func (f *fn) expr(e ast.Expr) string {
 	case *ast.CompositeLit:
 		return f.compositeLit(v)
 	case *ast.UnaryExpr:
+		if v.Op == token.AND {
+			if cl, ok := v.X.(*ast.CompositeLit); ok {
+				if n := namedOf(f.typeOf(cl)); n != nil {
+					if _, isStruct := n.Underlying().(*types.Struct); isStruct {
+						name := needStruct(n)
+						var parts []string
+						for _, el := range cl.Elts {
+							kv, ok := el.(*ast.KeyValueExpr)
+							if !ok {
+								return f.fail(v, "positional record literal")
+							}
+							var val string
+							if c, isCall := kv.Value.(*ast.CallExpr); isCall {
+								if id, isId := c.Fun.(*ast.Ident); isId && id.Name == "make" {
+									if _, isMap := f.typeOf(c).Underlying().(*types.Map); isMap {
+										val = "(fun _ => default)"
+									}
+								}
+							}
+							if val == "" {
+								if _, ok := leanType(f.typeOf(kv.Value), f.spec.Exact); !ok {
+									continue
+								}
+								val = f.expr(kv.Value)
+							}
+							parts = append(parts, ident(kv.Key.(*ast.Ident).Name)+" := "+val)
+						}
+						return "{ (default : " + name + ") with " + strings.Join(parts, ", ") + " }"
+					}
+				}
+			}
+		}
 		switch v.Op {
 		case token.NOT:
 			return "(!" + f.expr(v.X) + ")"
@@ -699,6 +739,8 @@ func (f *fn) expr(e ast.Expr) string {
 			}
 		}
 		return f.fail(v, "index of a non-map")
+	case *ast.FuncLit:
+		return "true" // a function value: non-nil
 	case *ast.SliceExpr:
 		if v.Low == nil && v.High != nil && v.Max == nil {
 			if _, isSlice := f.typeOf(v.X).Underlying().(*types.Slice); isSlice {
@@ -1295,6 +1337,32 @@ func (f *fn) assign(lhs ast.Expr, rhs string, ind string) string {
 		if st, ok := f.assignPath(v, rhs); ok {
 			return ind + st + "\n"
 		}
+		// x.f = rhs on a local record held as a tuple: the tuple with that component replaced
+		if id, ok := v.X.(*ast.Ident); ok {
+			if _, isState := f.isState(id); !isState {
+				if xt := f.typeOf(id); xt != nil {
+					if n := namedOf(xt); n != nil {
+						if st, ok := n.Underlying().(*types.Struct); ok {
+							if lt, _ := leanType(xt, f.spec.Exact); strings.HasPrefix(lt, "(") {
+								var parts []string
+								found := false
+								for i := 0; i < st.NumFields(); i++ {
+									if st.Field(i).Name() == v.Sel.Name {
+										parts = append(parts, rhs)
+										found = true
+									} else {
+										parts = append(parts, tupleProj(ident(id.Name), i, st.NumFields()))
+									}
+								}
+								if found {
+									return ind + "let " + ident(id.Name) + " := (" + strings.Join(parts, ", ") + ")\n"
+								}
+							}
+						}
+					}
+				}
+			}
+		}
 	}
 	return ind + f.fail(lhs, "assignment target %s", exprText(lhs)) + "\n"
 }
@@ -1399,6 +1467,51 @@ func (f *fn) block(list []ast.Stmt, ind string, k cont) string {
 				if id, ok := s.Lhs[0].(*ast.Ident); ok && id.Name == "_" {
 					if st, ok := f.connClose(c); ok {
 						return ind + st + "\n" + rest(ind)
+					}
+				}
+			}
+			// x.f = NewT(args): the component is there afterwards; the constructor and the numbers it was given are recorded
+			if c, ok := s.Rhs[0].(*ast.CallExpr); ok {
+				fname := ""
+				switch fn := c.Fun.(type) {
+				case *ast.Ident:
+					fname = fn.Name
+				case *ast.SelectorExpr:
+					fname = fn.Sel.Name
+				}
+				if sel, ok := s.Lhs[0].(*ast.SelectorExpr); ok && strings.HasPrefix(fname, "New") {
+					if sv, ok := f.isState(sel.X); ok && f.lt(sel) == "Bool" {
+						var nums []string
+						addNum := func(x string, lt string) {
+							switch lt {
+							case "Int":
+								nums = append(nums, x)
+							case "Nat":
+								nums = append(nums, "(Int.ofNat "+x+")")
+							}
+						}
+						for _, a := range c.Args {
+							at := f.typeOf(a)
+							lt, _ := leanType(at, f.spec.Exact)
+							if n := namedOf(at); n != nil {
+								if st, isStruct := n.Underlying().(*types.Struct); isStruct && strings.HasPrefix(lt, "(") {
+									for i := 0; i < st.NumFields(); i++ {
+										ft, _ := leanType(st.Field(i).Type(), f.spec.Exact)
+										addNum(tupleProj(f.expr(a), i, st.NumFields()), ft)
+									}
+									continue
+								}
+							}
+							addNum(f.expr(a), lt)
+						}
+						structsWithBuilt[sv.lean] = true
+						f.mutates = true
+						n := ident(sv.name)
+						out := ind + "let " + n + " := { " + n + " with built := " + n + ".built ++ [(" + fmt.Sprintf("%q", fname) + ", [" + strings.Join(nums, ", ") + "])] }\n"
+						if st, ok := f.assignPath(sel, "true"); ok {
+							out += ind + st + "\n"
+						}
+						return out + rest(ind)
 					}
 				}
 			}
@@ -1582,10 +1695,32 @@ func (f *fn) block(list []ast.Stmt, ind string, k cont) string {
 			f.loopN++
 			cn := fmt.Sprintf("c_%d", f.loopN)
 			out += ind + "let " + cn + " := " + f.expr(s.Cond) + "\n"
+			joinOK := true
 			for _, st := range s.Body.List {
 				as := st.(*ast.AssignStmt)
-				id := as.Lhs[0].(*ast.Ident)
-				out += ind + "let " + ident(id.Name) + " := if " + cn + " then " + f.expr(as.Rhs[0]) + " else " + ident(id.Name) + "\n"
+				rhs := f.expr(as.Rhs[0])
+				if tv, ok := f.l.info.Types[as.Rhs[0]]; ok && tv.Value != nil {
+					if c := constLit(tv.Value, f.lt(as.Lhs[0])); c != "" {
+						rhs = c
+					}
+				}
+				switch l := as.Lhs[0].(type) {
+				case *ast.Ident:
+					out += ind + "let " + ident(l.Name) + " := if " + cn + " then " + rhs + " else " + ident(l.Name) + "\n"
+				case *ast.SelectorExpr:
+					// the assignment as a let, turned into a conditional re-binding of the record
+					upd := strings.TrimSpace(f.assign(l, rhs, ""))
+					id := l.X.(*ast.Ident)
+					pre := "let " + ident(id.Name) + " := "
+					if _, isState := f.isState(id); isState || !strings.HasPrefix(upd, pre) {
+						joinOK = false
+						break
+					}
+					out += ind + pre + "if " + cn + " then " + strings.TrimPrefix(upd, pre) + " else " + ident(id.Name) + "\n"
+				}
+			}
+			if !joinOK {
+				return ind + f.fail(s, "conditional assignment form")
 			}
 			return out + rest(ind)
 		}
@@ -2181,7 +2316,7 @@ func (f *fn) rangeLoop(s *ast.RangeStmt, ind string, k cont) string {
 	return out
 }
 
-// onlyAssigns: a block of plain `local = expr` statements
+// onlyAssigns: a block of plain `local = expr` (or `local.field = expr`) statements
 func onlyAssigns(b *ast.BlockStmt) bool {
 	if len(b.List) == 0 {
 		return false
@@ -2191,7 +2326,13 @@ func onlyAssigns(b *ast.BlockStmt) bool {
 		if !ok || as.Tok != token.ASSIGN || len(as.Lhs) != 1 || len(as.Rhs) != 1 {
 			return false
 		}
-		if _, ok := as.Lhs[0].(*ast.Ident); !ok {
+		switch l := as.Lhs[0].(type) {
+		case *ast.Ident:
+		case *ast.SelectorExpr:
+			if _, ok := l.X.(*ast.Ident); !ok {
+				return false
+			}
+		default:
 			return false
 		}
 	}
@@ -2479,6 +2620,9 @@ func main() {
 				}
 				lines = append(lines, fmt.Sprintf("  %s : %s\n", ident(fl.Name()), lt))
 			}
+		}
+		if structsWithBuilt[name] {
+			lines = append(lines, "  built : List (String × List Int)   -- components constructed: constructor and its numeric arguments, in order\n")
 		}
 		if structsWithClosed[name] {
 			lines = append(lines, "  closedConns : List Nat   -- connections closed (Close() called), in order\n")
